@@ -147,8 +147,9 @@ class FrameCollector:
         # only process vars if we are under the time limit
         if collect_vars and not self.__time_exceeded():
             processor = VariableSetProcessor(var_lookup, var_cache, self.__source.collection_config)
-            # we process the vars as a single dict of 'locals'
-            variable, log_str = processor.process_variable("locals", f_locals)
+            # we process the vars as a single dict of 'locals'; the wrapper is a copy, as its entry is removed again
+            # below while the real mapping can itself be reachable from the frame (x = locals()) or from a watch
+            variable, log_str = processor.process_variable("locals", dict(f_locals))
             # now ee 'unwrap' the locals, so they are on the frame directly.
             if variable.vid in var_lookup:
                 variable_val = var_lookup[variable.vid]
